@@ -455,3 +455,136 @@ Example c02_mgr_reset_nonvacuous :
   /\ skipn 35 (mgr_run_case mgr_reset_ex) = [40; 20; 20; 60; 0]
   /\ mgr_prop_case mgr_reset_ex (mgr_run_case mgr_reset_ex) = 0.
 Proof. vm_compute. repeat split; reflexivity. Qed.
+
+(* ======================================================================================== *)
+(* Stream "dims": GroupQuotaManager in TWO resource dimensions (cpu in milli-cores, memory),   *)
+(* the feature gate ElasticQuotaGuaranteeUsage as a switch, pods reserved / un-reserved /      *)
+(* resized (Dim_Model.v, transcribed: every place where the code looks at the dimensions       *)
+(* together — need…/update… pairs, IsZero, Equals, GetSharedWeight — is joint in the model;   *)
+(* Dim_Spec.v: requests AND guarantees recomputed from scratch from the history).              *)
+(* ======================================================================================== *)
+From Verif Require Import C02.Dim_Model C02.Dim_Spec C02.Dim_Proofs_Inv.
+
+(* ---- 16. after ANY history (gate on or off; [fxd]: DeleteQuota as it is / repaired), in EACH
+        dimension every calculator of the tree holds exactly the current QuotaInfo figures of the
+        quotas whose parent it serves: tree nodes (request = min(Request, Max), min, sharedWeight,
+        guarantee = Guaranteed) and both caches.  In particular the joint change detectors never
+        leave one dimension stale (the mechanism of seeded/C02-m7) ---- *)
+Theorem c02_dims_calculators_agree : forall gate fxd K ops mem p,
+  let st := half mem (drun gate fxd K ops) in let c := get_calc p st in let tb := kids p (g_quotas st) in
+  c_tree c = abs tb
+  /\ (forall k, c_get k (c_reqLimit c) = match tab_find k tb with Some q => limit_req q | None => 0 end)
+  /\ (forall k, c_get k (c_guaranteed c) = match tab_find k tb with Some q => q_guar q | None => 0 end)
+  /\ c_total (get_calc 0 st) = g_total st.
+Proof. exact dims_calculators_agree. Qed.
+Print Assumptions c02_dims_calculators_agree.
+
+(* ---- 17. RefreshRuntime(k) after any such history reports, in each dimension, the from-scratch
+        division top-down along k's path (as c02_mgr_refresh_division) ---- *)
+Theorem c02_dims_refresh_division : forall gate fxd K ops mem k mq,
+  let st := half mem (drun gate fxd K ops) in
+  afind k (g_quotas st) = Some mq ->
+  let pth := rev (path k st) in
+  let top := top_parent pth st in
+  half mem (refresh2 k (drun gate fxd K ops)) = refresh false k st
+  /\ same_figs st (refresh false k st)
+  /\ (top = 0 -> c_total (get_calc top st) = g_total st)
+  /\ exists mq', afind k (g_quotas (refresh false k st)) = Some mq'
+                 /\ down pth (c_total (get_calc top st)) st = Some (q_runtime (m_info mq')).
+Proof. exact dims_refresh_division. Qed.
+Print Assumptions c02_dims_refresh_division.
+
+(* non-vacuity / regression of seeded/C02-m7: total 10 cores / 100; q1 (lends, min 1000m) holds a pod
+   of 1500m + 1, q2 (lends, min 2000m) one of 1200m + 1; then a cpu-ONLY pod of 300m arrives in q1 and
+   one of 600m in q2: both requests change by a sub-core amount in one dimension only and the division
+   follows (1800m / 1800m).  An implementation that leaves q1 at 1500m (whole-core change detection)
+   is rejected: capacity is left and q1 is short (clause 144, work conservation, cpu) *)
+Definition dims_m7_ex : list Z :=
+  [2; 7;  3;0;10000;100;0;0;0;0;0;0;
+          0;1;0;2;10000;100;1000;10;0;0;   0;2;0;2;10000;100;2000;10;0;0;
+          2;1;0;1500;1;0;0;0;0;0;          2;2;0;1200;1;0;0;0;0;0;
+          2;1;1;300;0;0;0;0;0;0;           2;2;1;600;0;0;0;0;0;0].
+
+Example c02_dims_subcore_nonvacuous :
+  skipn 20 (dims_run_case dims_m7_ex) = [1800; 1; 1200; 1;  1800; 1; 1800; 1]
+  /\ dims_prop_case dims_m7_ex (dims_run_case dims_m7_ex) = 0
+  /\ dims_prop_case dims_m7_ex (firstn 20 (dims_run_case dims_m7_ex) ++ [1500; 1; 1200; 1;  1500; 1; 1800; 1]) = 144.
+Proof. vm_compute. repeat split; reflexivity. Qed.
+
+(* non-vacuity / regression of seeded/C02-m8 (gate on): root 100; p1 (parent, min 20) -> c1 (min 10);
+   p2 (min 20) asks 100.  c1's pods (40 + 20) are reserved: p1 is guaranteed 60 and p2 gets 40; the pod
+   of 40 is un-reserved: p1 is guaranteed 20 again and competes like p2 (50 / 50); the pods leave: p2 gets
+   80.  A manager whose ancestors keep the high-water mark (p1 stays at 60) is rejected at the last step:
+   p1 gets more than max(request 20, guaranteed 20) (clause 141) *)
+Definition dims_m8_ex : list Z :=
+  [103; 12;  3;0;100;100;0;0;0;0;0;0;
+     0;1;0;1;100;100;20;20;0;0;  0;2;1;0;100;100;10;10;0;0;  0;3;0;0;100;100;20;20;0;0;
+     2;3;0;100;100;0;0;0;0;0;   2;2;0;40;40;0;0;0;0;0;   2;2;1;20;20;0;0;0;0;0;
+     5;2;0;0;0;0;0;0;0;0;   5;2;1;0;0;0;0;0;0;0;   6;2;0;0;0;0;0;0;0;0;
+     2;2;0;0;0;0;0;0;0;0;   2;2;1;0;0;0;0;0;0;0].
+
+Example c02_dims_guarantee_nonvacuous :
+  firstn 6 (skipn 48 (dims_run_case dims_m8_ex)) = [60; 60; 60; 60; 40; 40]
+  /\ firstn 6 (skipn 54 (dims_run_case dims_m8_ex)) = [50; 50; 50; 50; 50; 50]
+  /\ skipn 66 (dims_run_case dims_m8_ex) = [20; 20; 10; 10; 80; 80]
+  /\ dims_prop_case dims_m8_ex (dims_run_case dims_m8_ex) = 0
+  /\ dims_prop_case dims_m8_ex (firstn 66 (dims_run_case dims_m8_ex) ++ [60; 60; 10; 10; 40; 40]) = 141.
+Proof. vm_compute. repeat split; reflexivity. Qed.
+
+(* ---- 18. known finding (stream dims, sig 1; findings/C02-delete-keeps-guarantee.md): with the gate
+        on, DeleteQuota hands the deleted quota's USED to its ancestors' Allocated although they were
+        given its GUARANTEED = max(Allocated, Min).  root 100; q1 (parent, min 5) -> q2 (min 30, no
+        pods); q3 asks 100.  q1 is guaranteed 30 through q2 and gets 30, q3 70.  DeleteQuota(q2): the
+        code as it is ([fxd] = false, what /repo does) still reports 30 / 70 — q1 above
+        max(request 5, guaranteed 5): clause 141, shape 1; with the guarantee taken back ([fxd] = true)
+        5 / 95 and the decision procedure accepts ---- *)
+Definition dims_delete_witness : list Z :=
+  [103; 6;  3;0;100;100;0;0;0;0;0;0;
+     0;1;0;1;100;100;5;5;0;0;  0;2;1;0;100;100;30;30;0;0;  0;3;0;0;100;100;0;0;0;0;
+     2;3;0;100;100;0;0;0;0;0;   1;2;0;0;0;0;0;0;0;0].
+
+Theorem c02_dims_delete_guarantee_refuted :
+  exists inp, let '(gate, K, ops) := dims_decode inp in
+    gate = true
+    /\ skipn 30 (dims_run_case inp) = [30; 30; -1; -1; 70; 70]
+    /\ dims_prop_case inp (dims_run_case inp) = 141
+    /\ dims_finding_sig inp (dims_run_case inp) = 1
+    /\ skipn 30 (drun_obs gate true K dmgr0 ops) = [5; 5; -1; -1; 95; 95]
+    /\ dims_prop_case inp (drun_obs gate true K dmgr0 ops) = 0.
+Proof. exists dims_delete_witness. vm_compute. repeat split; reflexivity. Qed.
+Print Assumptions c02_dims_delete_guarantee_refuted.
+
+(* ---- 19. the guarantee chain, gate on: after ANY history with non-negative quantities (create / max /
+        min / sharedWeight changes, pods arriving — possibly already bound —, leaving, reserved,
+        un-reserved, resized, cluster total, RefreshRuntime of everything after every op; DeleteQuota
+        too when it takes the guarantee back, [fxd] = true — for the code as it is the histories without
+        DeleteQuota), in each dimension and for every live quota k:
+            Guaranteed(k) = max(Allocated(k), Min(k))
+            Allocated(k)  = requests of the ASSIGNED pods of k + sum of Guaranteed(c), c child of k
+        (by c02_dims_calculators_agree that Guaranteed is the guarantee of k's node in its parent's
+        calculator).  Nothing ratchets: a released guarantee is rolled back at every ancestor (the
+        mechanism of seeded/C02-m8).  The parent chains of the model reach the root (quotas are created
+        below live parents and never re-parented: Dim_Proofs_Geq.complete), so no hypothesis on paths ---- *)
+From Verif Require Import C02.Dim_Proofs_Geq C02.Dim_Proofs_Guar.
+
+Theorem c02_dims_guarantee_exact : forall fxd K ops mem k mq,
+  forallb wf_dop ops = true -> (fxd = true \/ forallb not_delete ops = true) ->
+  let st := drun true fxd K ops in
+  afind k (g_quotas (half mem st)) = Some mq ->
+  q_guar (m_info mq) = Z.max (al mem st k) (m_min mq)
+  /\ al mem st k = assigned_sum mem k st + kids_guar k (half mem st)
+  /\ 0 <= al mem st k.
+Proof. exact dims_guarantee_exact. Qed.
+Print Assumptions c02_dims_guarantee_exact.
+
+(* non-vacuity: the history of dims_m8_ex is well-formed and has no DeleteQuota; after its first nine ops
+   (both pods of c1 reserved) c1 = q2 has Allocated 60 = Guaranteed and its parent q1 Allocated 60 =
+   Guaranteed, one op later (the pod of 40 un-reserved) 20 / 20 *)
+Example c02_dims_guarantee_exact_nonvacuous :
+  let ops := snd (dims_decode dims_m8_ex) in
+  forallb wf_dop ops = true /\ forallb not_delete ops = true
+  /\ (let st := drun true false 3 (firstn 9 ops) in
+      al false st 2 = 60 /\ al false st 1 = 60 /\ kids_guar 1 (d_cpu st) = 60 /\ assigned_sum false 2 st = 60)
+  /\ (let st := drun true false 3 (firstn 10 ops) in
+      al false st 2 = 20 /\ al false st 1 = 20 /\ kids_guar 1 (d_cpu st) = 20 /\ assigned_sum false 2 st = 20).
+Proof. vm_compute. repeat split; reflexivity. Qed.
